@@ -11,7 +11,7 @@
    violation that does not match it.                                                          *)
 EXTENDS Krp
 
-CONSTANT Known      \* subset of {"K1", "K2", "K3"}
+CONSTANT Known      \* subset of {"K1", "K2"}
 
 -----------------------------------------------------------------------------
 \* vocabulary
@@ -207,11 +207,8 @@ C05_UnbondFee(w1, e, w2, o1) ==
         cred == w2.wait[u][i].b - w1.wait[u][i].b
     IN /\ cred >= 0 /\ cred <= amt /\ amt - cred <= MulDec(amt, w1.hubPar.fee)
        /\ (DecLe(w1.hubPar.thr, o1.rep.rateB) => cred = amt)
-\* K3 (known finding): bSei -> stSei convert caps the fee by the whole gap although the converted tokens leave the pool
 C05_NoOvershoot(w1, e, w2, o1, o2) ==
-  (e.ok /\ ~IsProbe(e) /\ FeePath(e) /\ DecLt(o1.rep.rateB, One)
-     /\ ~("K3" \in Known /\ IsHookTx(e, "bsei", "convert") /\ e.tx.msg.amount > ClaimsB(w1) - o1.rep.bondB))
-    => o2.rep.bondB <= ClaimsB(w2) + 2
+  (e.ok /\ ~IsProbe(e) /\ FeePath(e) /\ DecLt(o1.rep.rateB, One)) => o2.rep.bondB <= ClaimsB(w2) + 2
 C05_Step(w1, e, w2, o1, o2) == C05_UnbondFee(w1, e, w2, o1) /\ C05_NoOvershoot(w1, e, w2, o1, o2)
 C05_ParamsInRange(w0) == DecLe(w0.hubPar.fee, One) /\ DecLe(w0.hubPar.thr, One)
 
